@@ -173,7 +173,9 @@ class TimeoutExecutor(CanCustomizeBind, Executor):
         wait_time = None
         if pending:
             earliest = min([job.deadline for job in pending])
-            wait_time = max(earliest - monotonic(), 0)
+            # (bounded: a wait beyond threading.TIMEOUT_MAX raises OverflowError,
+            # which would end this thread; after waking up early we just wait again)
+            wait_time = min(max(earliest - monotonic(), 0), MAX_TIMEOUT)
 
         executor._log.debug("Wait until %s", wait_time)
         return (executor._jobs_write, wait_time)
